@@ -5,6 +5,7 @@ import (
 	"encoding/base64"
 	"encoding/binary"
 	"fmt"
+	"io"
 	"net/http"
 	"net/http/httptest"
 	"strings"
@@ -67,6 +68,24 @@ func corruptFrame(rc *RunCtx, valid []byte, streamEntry bool) ([]byte, string) {
 		rc.Fault("giant-unknown-method-name")
 		proto, _ := rc.Sample["protocol"].(string)
 		return giantRequest(proto, n), fmt.Sprintf("well-framed request for an unknown method with a %d-byte name", n)
+	}
+	if k := tp.Intn("corrupt2", 9); k == 1 || k == 2 {
+		// a well-formed frame whose routing headers are not what a peer would send
+		if f, err := DecodeFrame(b); err == nil {
+			name := []string{"_opid", "_cid"}[k-1]
+			v := []string{"", "-1", "+778", " 778", "778 ", "0x30a", "18446744073709551616", "123456789012345678901234567890", "7.78e2", "\x00", strings.Repeat("9", 70000)}[tp.Intn("corrupt2", 11)]
+			if tp.Intn("corrupt2", 4) == 0 {
+				delete(f.Headers, name)
+				v = "(absent)"
+			} else {
+				f.Headers[name] = v
+			}
+			rc.Fault("hostile-routing-header")
+			if len(v) > 40 {
+				v = fmt.Sprintf("%s... (%d bytes)", v[:10], len(v))
+			}
+			return EncodeFrame(f.Headers, f.Payload), fmt.Sprintf("well-formed frame with %s=%q", name, v)
+		}
 	}
 	switch tp.Intn("corrupt", 12) {
 	case 11:
@@ -355,7 +374,20 @@ func corruptHarness(rc *RunCtx) {
 		case "nats-client":
 			bad, w := corruptFrame(rc, repFrame, false)
 			what = w
-			env.b.Route("_INBOX.cli.778", "", nil, bad)
+			var hdr []byte
+			subj := "_INBOX.cli.778"
+			if k := tp.Intn("corrupt2", 5); k == 1 {
+				// (status fields shorter than three characters are left out: nats.go v1.33.1 itself panics on
+				// them in DecodeHeadersMsg, before any frugal code sees the message; see DESIGN section 8)
+				hdr = []byte([]string{"NATS/1.0 408\r\n\r\n", "NATS/1.0    503   \r\n\r\n", "NATS/1.0 abc\r\n\r\n", "NATS/1.0 503 No Responders\r\nX: y\r\n\r\n", "NATS/1.0\r\nStatus: 503\r\n\r\n", "NATS/1.0 5030\r\n\r\n"}[tp.Intn("corrupt2", 6)])
+				subj = []string{"_INBOX.cli.778", "_INBOX.cli.", "_INBOX.cli", "_INBOX.cli.778.9", "_INBOX.cli.-1", "_INBOX.cli.abc"}[tp.Intn("corrupt2", 6)]
+				if tp.Intn("corrupt2", 2) == 0 {
+					bad = nil
+				}
+				rc.Fault("odd-nats-status-header")
+				what += fmt.Sprintf(" + status header %q on subject %s", strings.TrimSpace(string(hdr)), subj)
+			}
+			env.b.Route(subj, "", hdr, bad)
 			settle(time.Second)
 		case "nats-server":
 			bad, w := corruptFrame(rc, reqFrame, false)
@@ -374,8 +406,30 @@ func corruptHarness(rc *RunCtx) {
 				body = string(bad) // not base64 at all
 				what += " raw (not base64)"
 			}
-			req := httptest.NewRequest("POST", "http://sim/frugal", strings.NewReader(body))
-			if tp.Intn("cfg", 3) == 0 {
+			var rd io.Reader = strings.NewReader(body)
+			switch tp.Intn("corrupt2", 6) {
+			case 1:
+				rd = strings.NewReader("")
+				what += " + empty body"
+				rc.Fault("http-empty-body")
+			case 2:
+				rd = io.MultiReader(strings.NewReader(body[:len(body)/2]), failingReader{})
+				what += " + body read fails half way"
+				rc.Fault("http-body-read-error")
+			case 3:
+				rd = strings.NewReader(body + "\r\n")
+				what += " + trailing CRLF"
+			}
+			req := httptest.NewRequest("POST", "http://sim/frugal", rd)
+			if k := tp.Intn("corrupt2", 4); k == 1 {
+				vs := []string{"+5", " 12", "1e3", "9223372036854775807", "9223372036854775808", "", "0x10", "12 ", "-0"}
+				req.Header.Set("x-frugal-payload-limit", vs[tp.Intn("corrupt2", len(vs))])
+				if tp.Intn("corrupt2", 2) == 0 {
+					req.Header.Add("x-frugal-payload-limit", vs[tp.Intn("corrupt2", len(vs))])
+				}
+				rc.Fault("odd-payload-limit-header")
+				what += fmt.Sprintf(" + payload limit header %q", req.Header["X-Frugal-Payload-Limit"])
+			} else if tp.Intn("cfg", 3) == 0 {
 				req.Header.Set("x-frugal-payload-limit", []string{"-1", "abc", "0", "99999999999999999999"}[tp.Intn("cfg", 4)])
 			}
 			rec := httptest.NewRecorder()
@@ -437,6 +491,10 @@ func corruptHarness(rc *RunCtx) {
 	s.Shutdown()
 	env.kill()
 }
+
+type failingReader struct{}
+
+func (failingReader) Read([]byte) (int, error) { return 0, fmt.Errorf("simulated body read failure") }
 
 // ids far from anything a few flipped bits of the corrupted template (id 555) can decode to
 const warmID, canaryID = int64(7777000001), int64(7777000002)
